@@ -59,6 +59,7 @@ FUNCS = [  # (lean name, file, class, method, translator key, lean type)
     ("getState", "statemachine/statemachine.py", "StateMachine", "__getstate__", "getstate", "List St.GStmt"),
     ("setState", "statemachine/statemachine.py", "StateMachine", "__setstate__", "setstate", "List St.SStmt"),
     ("allowedEvents", "statemachine/statemachine.py", None, "allowed", "allowed", "St.AllowedScript"),
+    ("registry", "statemachine/callbacks.py", None, "registry", "registry", "R.RegScript"),
 ]
 ASYNC_DEF = {"activateAsync", "triggerAsync", "processAsync", "wrapperDunder", "execAsyncCall", "execAsyncAll"}
 
@@ -1447,6 +1448,154 @@ def tr_allowed(repo):
     return "{ allowed := " + a + ", events := " + e + " }"
 
 
+# ----------------------------------------------------------------------------------------- the registry
+
+def tr_registry(repo):
+    """CallbacksExecutor.add, CallbackWrapper.__lt__, Listeners.search_name / resolve, CallbacksRegistry.check /
+    async_or_sync -> R.RegScript"""
+    M = lambda rel, cls, name: method(repo, rel, cls, name)
+    cb, dp = "statemachine/callbacks.py", "statemachine/dispatcher.py"
+    fn = M(cb, "CallbacksExecutor", "add")
+    if [a.arg for a in fn.args.args] != ["self", "key", "spec", "builder"]:
+        raise Untranslatable("CallbacksExecutor.add: parameters")
+    env = {}
+    add = []
+    for st in _body(fn):
+        t = ntext(st, env)
+        m = re.match(r"^(\w+) = \(key, spec\.expected_value\)$", t)
+        if m:
+            bind(env, m.group(1), "SEEN")
+            add.append(".seenKey")
+            continue
+        if t == "if SEEN in self.items_already_seen:\n    return":
+            add.append(".returnIfSeen")
+            continue
+        if t == "self.items_already_seen.add(SEEN)":
+            add.append(".markSeen")
+            continue
+        m = re.match(r"^(\w+) = spec\.cond if spec\.cond is not None else allways_true$", t)
+        if m:
+            bind(env, m.group(1), "COND")
+            add.append(".conditionOrAlways")
+            continue
+        m = re.match(r"^(\w+) = CallbackWrapper\(callback=builder\(\), condition=COND, meta=spec, unique_key=key\)$", t)
+        if m:
+            bind(env, m.group(1), "WRAPPER")
+            add.append(".wrap")
+            continue
+        if t == "insort(self.items, WRAPPER)":
+            add.append(".insort")
+            continue
+        raise Untranslatable(f"CallbacksExecutor.add: statement at line {st.lineno} not recognised: {t!r}")
+    # `insort` must be bisect's (insort_right)
+    tree = ast.parse(open(os.path.join(repo, cb)).read())
+    if not any(isinstance(n, ast.ImportFrom) and n.module == "bisect" and any(a.name == "insort" and a.asname is None for a in n.names)
+               for n in tree.body):
+        raise Untranslatable("callbacks.py: `insort` is not `from bisect import insort`")
+    fn = M(cb, "CallbackWrapper", "__lt__")
+    lt = _stmts(fn, {"return self.meta.priority < other.meta.priority": ".priorityLess"}, "CallbackWrapper.__lt__")
+    if lt != "[.priorityLess]":
+        raise Untranslatable("CallbackWrapper.__lt__: " + lt)
+    # build_key / from_obj: the key of a named callback is name@id(provider object)
+    fn = M(dp, "Listener", "build_key")
+    if _stmts(fn, {"return f'{attr_name}@{self.resolver_id}'": "k"}, "Listener.build_key") != "[k]":
+        raise Untranslatable("Listener.build_key")
+    fn = M(dp, "Listener", "from_obj")
+    fo = [ntext(x) for x in _body(fn)]
+    if fo != ["if isinstance(obj, Listener):\n    return obj\nelse:\n    if skip_attrs is None:\n        skip_attrs = set()\n"
+              "    all_attrs = set(dir(obj)) - skip_attrs\n    return cls(obj, all_attrs, str(id(obj)))"]:
+        raise Untranslatable(f"Listener.from_obj: {fo!r}")
+    fn = M(dp, "Listeners", "search_name")
+    body = _body(fn)
+    if len(body) != 1 or not isinstance(body[0], ast.For) or ntext(body[0].iter) != "self.items" \
+            or not isinstance(body[0].target, ast.Name) or body[0].orelse:
+        raise Untranslatable("Listeners.search_name: not one loop over self.items")
+    env = {body[0].target.id: "LST"}
+    sn = []
+    for st in body[0].body:
+        t = ntext(st, env)
+        if t == "if name not in LST.all_attrs:\n    continue":
+            sn.append(".skipUnlessHasAttr")
+            continue
+        m = re.match(r"^(\w+) = LST\.build_key\(name\)$", t)
+        if m:
+            bind(env, m.group(1), "KEY")
+            sn.append(".keyNameAtProvider")
+            continue
+        m = re.match(r"^(\w+) = getattr\(LST\.obj, name\)$", t)
+        if m:
+            bind(env, m.group(1), "FUNC")
+            sn.append(".getattr")
+            continue
+        if t == "if not callable(FUNC):\n    yield (KEY, partial(attr_method, name, LST.obj))\n    continue":
+            sn.append(".yieldAttrUnlessCallable")
+            continue
+        if t == "if isinstance(FUNC, Event):\n    yield (KEY, partial(event_method, FUNC))\n    continue":
+            sn.append(".yieldEventMethod")
+            continue
+        if t == "yield (KEY, partial(callable_method, FUNC))":
+            sn.append(".yieldCallable")
+            continue
+        raise Untranslatable(f"Listeners.search_name: statement at line {st.lineno} not recognised: {t!r}")
+    fn = M(dp, "Listeners", "resolve")
+    names = [a.arg for a in fn.args.args]
+    if names != ["self", "specs", "registry", "allowed_references"]:
+        raise Untranslatable(f"Listeners.resolve: parameters {names}")
+    env = {}
+    rs = []
+    for st in _body(fn):
+        t = ntext(st, env)
+        m = re.match(r"^(\w+) = specs\.conventional_specs & self\.all_attrs$", t)
+        if m:
+            bind(env, m.group(1), "FOUND")
+            rs.append(".conventionFilter")
+            continue
+        if isinstance(st, ast.For) and ntext(st.iter, env) == "specs" and isinstance(st.target, ast.Name) and not st.orelse:
+            lenv = dict(env)
+            lenv[st.target.id] = "SPEC"
+            lb = []
+            for b in st.body:
+                bt = ntext(b, lenv)
+                if bt == "if SPEC.reference not in allowed_references or (SPEC.is_convention and SPEC.func not in FOUND):\n    continue":
+                    lb.append(".skipUnlessAllowedAndFound")
+                    continue
+                m = re.match(r"^(\w+) = registry\[specs\.grouper\(SPEC\.group\)\.key\]$", bt)
+                if m:
+                    lenv[m.group(1)] = "EXEC"
+                    lb.append(".executorOfGroup")
+                    continue
+                if re.match(r"^for \(?(\w+), (\w+)\)? in self\.build\(SPEC\):\n    EXEC\.add\(\1, SPEC, \2\)$", bt):
+                    lb.append(".addEachBuilt")
+                    continue
+                raise Untranslatable(f"Listeners.resolve: loop statement at line {b.lineno} not recognised: {bt!r}")
+            rs.append(".forSpecs [" + ", ".join(lb) + "]")
+            continue
+        raise Untranslatable(f"Listeners.resolve: statement at line {st.lineno} not recognised: {t!r}")
+    fn = M(cb, "CallbacksRegistry", "check")
+    body = _body(fn)
+    if len(body) != 1 or not isinstance(body[0], ast.For) or ntext(body[0].iter) != "specs" or body[0].orelse:
+        raise Untranslatable("CallbacksRegistry.check: not one loop over specs")
+    env = {body[0].target.id: "META"}
+    ck = []
+    for b in body[0].body:
+        bt = ntext(b, env)
+        if bt == "if META.is_convention:\n    continue":
+            ck.append(".skipConventions")
+        elif bt == "if any((X0 for X0 in self[META.group.build_key(specs)] if X0.meta == META)):\n    continue":
+            ck.append(".continueIfResolved")
+        elif re.match(r"^if META\.names_not_found:\n    raise AttrNotFound\(.*\)$", bt, flags=re.S):
+            ck.append(".raiseNamesNotFound")
+        elif re.match(r"^raise AttrNotFound\(.*META\.func.*\)$", bt, flags=re.S):
+            ck.append(".raiseNotFound")
+        else:
+            raise Untranslatable(f"CallbacksRegistry.check: statement at line {b.lineno} not recognised: {bt!r}")
+    fn = M(cb, "CallbacksRegistry", "async_or_sync")
+    asy = _stmts(fn, {"self.has_async_callbacks = any((X1._iscoro for X0 in self._registry.values() for X1 in X0))":
+                      ".anyCoroutineInAnyExecutor"}, "CallbacksRegistry.async_or_sync")
+    return ("{\n  add := [" + ", ".join(add) + "], lt := .priorityLess, searchName := [" + ", ".join(sn) + "],\n  resolve := ["
+            + ", ".join(rs) + "],\n  check := [" + ", ".join(ck) + "], asyncOrSync := " + asy + " }")
+
+
 TRANSLATORS = {"eventcall": tr_eventcall, "send": tr_send, "start": tr_start, "injected": tr_injected,
                "activate": tr_activate, "trigger": tr_trigger, "process": tr_process, "wrapper": tr_wrapper,
                "executor": tr_executor, "bind": tr_bind,
@@ -1483,6 +1632,9 @@ def translate(repo):
                 continue
             if key == "allowed":
                 res[name] = (ty, tr_allowed(repo), None)
+                continue
+            if key == "registry":
+                res[name] = (ty, tr_registry(repo), None)
                 continue
             if key == "injected":
                 if [ast.unparse(d) for d in fn.decorator_list] != ["property"]:
@@ -1589,6 +1741,16 @@ SELFTEST_EDITS = [
     ("statemachine/statemachine.py", "                    Listener.from_obj(self.model, skip_attrs={self.state_field}),", "                    Listener.from_obj(self.model, skip_attrs=self._protected_attrs),"),
     ("statemachine/statemachine.py", "            allowed_references=SPECS_SAFE,\n", ""),
     ("statemachine/statemachine.py", "        return [getattr(self, event) for event in self.current_state.transitions.unique_events]", "        return [getattr(self, event) for event in self.__class__._events]"),
+    ("statemachine/callbacks.py", "        seen_key = (key, spec.expected_value)", "        seen_key = key"),
+    ("statemachine/callbacks.py", "        self.items_already_seen.add(seen_key)\n", ""),
+    ("statemachine/callbacks.py", "        insort(self.items, wrapper)", "        self.items.append(wrapper)"),
+    ("statemachine/callbacks.py", "        return self.meta.priority < other.meta.priority", "        return self.meta.priority <= other.meta.priority"),
+    ("statemachine/callbacks.py", "from bisect import insort\n", "from bisect import insort_left as insort\n"),
+    ("statemachine/callbacks.py", "            if meta.is_convention:\n                continue\n", ""),
+    ("statemachine/dispatcher.py", "            if name not in listener.all_attrs:\n                continue\n", "            if name not in listener.all_attrs:\n                break\n"),
+    ("statemachine/dispatcher.py", "        return f\"{attr_name}@{self.resolver_id}\"", "        return f\"{attr_name}\""),
+    ("statemachine/dispatcher.py", "            if (spec.reference not in allowed_references) or (", "            if (", ),
+    ("statemachine/dispatcher.py", "            return cls(obj, all_attrs, str(id(obj)))", "            return cls(obj, all_attrs, type(obj).__name__)"),
 ]
 
 
@@ -1627,6 +1789,7 @@ HEADER = """import SMV.Src.IR
 import SMV.Src.IRBind
 import SMV.Src.IRCheck
 import SMV.Src.IRStore
+import SMV.Src.IRReg
 /-! GENERATED by `harness/srcgen.py --write-expected` from the tree the theorems of `SMV/Src/Tie.lean` were
 proved for. Do not edit by hand. -/
 """
